@@ -46,6 +46,15 @@ class LObj:
         self.ref = ref
 
 
+class ElemInv:
+    """precondition of the form: for every index k of `region`, P(k, region[k].leaf).
+    Enforce mode: assumed exactly at the loads (while the region is unmodified);
+    call sites: proved for a fresh k.  No quantifier reaches the solver."""
+
+    def __init__(self, region, leaf, kind, fn):
+        self.region, self.leaf, self.kind, self.fn = region, leaf, kind, fn
+
+
 class LoopSpec:
     def __init__(self, inv=None, unroll=None, variant=None, tags=None, extra_havoc=(), hints=None):
         self.inv, self.unroll, self.variant, self.tags, self.extra_havoc = inv, unroll, variant, tags, extra_havoc
@@ -96,10 +105,28 @@ class Ctx:
             return v.t
         return v
 
-    def f(self, path, kind='int'):
-        """scalar field / global by path, e.g. 'this._ip' (created lazily with declared kind)"""
+    def R(self, path):
+        """resolve 'this' and object aliases (shared_ptr members bound to other objects) in a path"""
         if self.this and path.startswith('this.'):
             path = self.this + path[4:]
+        for _ in range(6):
+            changed = False
+            # longest aliased prefix ending before a '.'
+            pos = [i for i, ch in enumerate(path) if ch == '.']
+            for i in reversed(pos):
+                pre = path[:i]
+                v = self.st.scal.get(pre)
+                if isinstance(v, ObjRef) and v.name != pre:
+                    path = v.name + path[i:]
+                    changed = True
+                    break
+            if not changed:
+                break
+        return path
+
+    def f(self, path, kind='int'):
+        """scalar field / global by path, e.g. 'this._ip' (created lazily with declared kind)"""
+        path = self.R(path)
         if path not in self.st.scal:
             ct = parse_type_str({'int': 'unsigned int', 'real': 'float', 'bool': 'bool', 'u8': 'unsigned char', 'u64': 'unsigned long', 'i32': 'int'}[kind])
             self.ex.new_scalar(self.st, path, ct)
@@ -109,8 +136,7 @@ class Ctx:
         return self.f(path, 'real')
 
     def arr(self, region, leaf='', kind='real'):
-        if self.this and region.startswith('this.'):
-            region = self.this + region[4:]
+        region = self.R(region)
         ct = parse_type_str('float' if kind == 'real' else 'unsigned int')
         return self.st.array(region, leaf, ct)
 
@@ -124,12 +150,15 @@ class Ctx:
         return z3.Select(self.st.array(ptr.region, leaf, parse_type_str('float' if kind == 'real' else 'unsigned int')), ptr.off + idx)
 
     def len(self, region):
-        if self.this and region.startswith('this.'):
-            region = self.this + region[4:]
+        region = self.R(region)
         return self.st.len_of(region)
 
     def g(self, name):
         return self.ghost[name]
+
+    def ghost_of(self, name):
+        """ghost of the unit being verified (for instantiating a callee's ghosts at a call site)"""
+        return self.ex.unit_ghosts[name]
 
 
 class Exec:
@@ -153,6 +182,7 @@ class Exec:
         self.ideal = False
         self.curline = None
         self.scope_stack = []
+        self.randoms = []
 
     # -------------------------------------------------------------- obligations
     def oblig(self, st, name, goal, kind, tags=None, note=''):
@@ -291,10 +321,12 @@ class Exec:
                     t = z3.Select(st.array(l.region, leaf, lct), l.idx)
                     if lct.kind == 'int':
                         st.assume(range_fact(t, lct))      # typed memory
+                    self.apply_elem_inv(st, l.region, leaf, l.idx, t)
                     f[leaf] = IntV(t, lct) if lct.kind == 'int' else RealV(t, lct)
                 return StructV(pod, f)
             a = st.array(l.region, l.leaf, l.ct)
             t = z3.Select(a, l.idx)
+            self.apply_elem_inv(st, l.region, l.leaf, l.idx, t)
             if l.ct.kind == 'int':
                 st.assume(range_fact(t, l.ct))          # typed memory
                 return IntV(t, l.ct)
@@ -319,6 +351,17 @@ class Exec:
                 return StructV(pod, f)
             return l.ref
         raise ExtractionError(f'load of {l}')
+
+    def apply_elem_inv(self, st, region, leaf, idx, t):
+        inv = self.elem_inv.get((region, leaf)) if self.elem_inv else None
+        if inv is None:
+            return
+        a0 = self.entry.arr.get((region, leaf)) if self.entry is not None else None
+        cur = st.arr.get((region, leaf))
+        if a0 is not None and cur is not None and cur.eq(a0):
+            st.assume(inv(st, idx, t))
+
+    elem_inv = None
 
     def check_index(self, st, l):
         if l.checked:
@@ -547,6 +590,8 @@ class Exec:
             v = self.load(l, st)
             if isinstance(v, (ObjRef, StructV, PtrV, SubArr)):
                 v._lv = l
+                return v
+            if isinstance(v, Opaque):
                 return v
             raise ExtractionError(f'{self.unit}: base object evaluates to {v} (line {self.curline})')
         return l
@@ -930,6 +975,20 @@ class Exec:
             raise ExtractionError(f'{self.unit}: conditional operator arms not mergeable (line {self.curline})')
         return m
 
+    def lv_ConditionalOperator(self, n, st):
+        c = self.tobool(self.ev(n['inner'][0], st))
+        cs = z3.simplify(c)
+        if z3.is_true(cs):
+            return self.lv(n['inner'][1], st)
+        if z3.is_false(cs):
+            return self.lv(n['inner'][2], st)
+        a = self.load(self.lv(n['inner'][1], st), st)
+        b = self.load(self.lv(n['inner'][2], st), st)
+        m = merge_val(c, a, b)
+        if m is None:
+            raise ExtractionError(f'{self.unit}: conditional lvalue arms not mergeable (line {self.curline})')
+        return m      # read-only use
+
     # ---- construction
     def ev_InitListExpr(self, n, st):
         ct = parse_type(n['type'])
@@ -1140,7 +1199,7 @@ class Exec:
                 vals.append(self.ev(a, st))
         for p in ps[len(argn):]:
             # default args
-            dflt = [c for c in p.get('inner', []) if 'Expr' in c.get('kind', '') or 'Literal' in c.get('kind', '')]
+            dflt = [c for c in p.get('inner', []) if c.get('kind') and not c['kind'].endswith(('Attr', 'Comment', 'Decl'))]
             if not dflt:
                 raise ExtractionError(f'missing argument for {q}')
             vals.append(self.ev(dflt[0], st))
@@ -1244,7 +1303,7 @@ class Exec:
         st.names[vid] = d.get('name', '')
         if self.scope_stack:
             self.scope_stack[-1].append(vid)
-        init = [c for c in d.get('inner', []) if c.get('kind', '').endswith(('Expr', 'Operator', 'Literal'))]
+        init = [c for c in d.get('inner', []) if c.get('kind') and not c['kind'].endswith(('Attr', 'Comment', 'Decl'))]
         ct = parse_type(d['type'])
         isref = d['type']['qualType'].rstrip().endswith('&')
         if not init:
